@@ -23,7 +23,7 @@ def main():
     for f in glob.glob(os.path.join(src, "*.rs")) + glob.glob(os.path.join(src, "demo.md")):
         shutil.copy(f, dst)
     am = json.load(open(os.path.join(src, "meta.json")))
-    rounds = {"3": "third", "4": "fourth", "5": "fifth", "6": "sixth", "7": "seventh", "8": "eighth", "9": "ninth", "10": "tenth", "11": "eleventh"}
+    rounds = {"3": "third", "4": "fourth", "5": "fifth", "6": "sixth", "7": "seventh", "8": "eighth", "9": "ninth", "10": "tenth", "11": "eleventh", "12": "twelfth"}
     meta = {
         "property": pid,
         "author": "independent sub-agent (%s round: given the property text, a scratch worktree and one-sentence summaries of the earlier rounds' changes to avoid)" % rounds.get(rnd, rnd),
